@@ -28,6 +28,7 @@ ORACLES = [
     (r'oracle :: impl (From<Timestamp> for Date|Date / fn (try_from_usecs|is_valid_date|new))', ['od_from_timestamp']),
     (r'oracle :: impl Date / fn add_days|kani::od_add_days', ['od_add_days']),
     (r'timestamp :: impl Timestamp / fn add_days|kani::ts_add_days', ['ts_add_days']),
+    (r'impl DateTime for \w+ / fn second$|kani::second_accessor', ['second_accessor']),
     (r'impl Date / fn and_hms|impl From<Timestamp> for Time / fn from', ['and_hms']),
     (r'impl (Date|Timestamp) / fn (add_time|sub_time|sub_timestamp|sub_date|add_interval_dt|sub_interval_dt)|impl Interval(DT|YM) / fn (add|sub)_interval_(dt|ym)|impl (Timestamp|IntervalDT|IntervalYM) / fn try_from_(usecs|months)', ['linear_arith']),
     (r'impl Partial(Eq|Ord)<\w+> for \w+ / fn (eq|partial_cmp)', ['mixed_cmp']),
